@@ -130,3 +130,24 @@ def known_arg_bits(prog, ex, callee_name, argno):
 
 def fmt_t(t):
     return "%s@%s[%s] %s" % (t.fn.name, t.where, t.kind, ";".join(t.old.notes[-3:]))
+
+
+def report_sub(rep):
+    from dqsa import report as _r
+    return _r.Report(rep.prop, rep.tier, rep.seed)
+
+
+def merge_sub(rep, sub, rid, text):
+    """fold the results of a sub-report (rules re-run on another form of the program) into `rep` under one rule id"""
+    n = sum(r["instances"] for r in sub.rules.values())
+    held = sum(r["held"] for r in sub.rules.values())
+    rep.rule(rid, text, floor=1)
+    rep.rules[rid]["instances"] += n
+    rep.rules[rid]["held"] += held
+    for r in sub.rules.values():
+        rep.rules[rid]["samples"] += r["samples"][:1]
+    for f in sub.findings:
+        f.rule = rid
+        rep.findings.append(f)
+    rep.unknowns += ["%s: %s" % (rid, u) for u in sub.unknowns]
+    rep.functions_analysed |= sub.functions_analysed
